@@ -424,7 +424,7 @@ func c16EvalBig(c *Ctx, raw []byte) {
 
 // c16GenBig: a set whose rendered text has about `bytes` bytes, in blocks of `per` pairs.
 func c16GenBig(r *rand.Rand, bytes, valLen, per int) c16Big {
-	pairs := bytes/(valLen+16) + 1
+	pairs := min(bytes/(valLen+16)+1, 300000)
 	p := c16Big{ValLen: valLen, Blocks: []int{}}
 	for pairs > 0 {
 		n := min(per, pairs)
@@ -442,12 +442,12 @@ func c16RunBig(c *Ctx) {
 	cases := []c16Big{
 		c16GenBig(r, kib(70, 1000), 8+r.Intn(60), 1000),                 // below 1 MiB, ordinary pairs
 		c16GenBig(r, kib(1100, 2600), 20+r.Intn(60), 1000),              // above 1 MiB: tens of thousands of pairs
-		c16GenBig(r, kib(4200, 6000), 30+r.Intn(60), 2000),              // above 4 MiB
+		c16GenBig(r, kib(4200, 5600), 80+r.Intn(60), 2000),              // above 4 MiB
 		c16GenBig(r, kib(200, 3000), (66+r.Intn(200))<<10, 1+r.Intn(3)), // a few pairs, each line longer than 64 KiB
 	}
 	if c.Thorough() {
-		for i := 0; i < 6; i++ {
-			cases = append(cases, c16GenBig(r, kib(60, 9000), 1+r.Intn(300), 1000))
+		for i := 0; i < 3; i++ {
+			cases = append(cases, c16GenBig(r, kib(60, 7000), 8+r.Intn(300), 1000))
 		}
 		cases = append(cases, c16GenBig(r, kib(2000, 8000), (1+r.Intn(2000))<<10, 1))
 	}
